@@ -49,13 +49,22 @@ pub enum Event {
         current_states: u64,
     },
     /// the same unclaimed iterations split by cause: their stream value was replayed in this run but
-    /// not iterated ("unvisited"), or it has no position in the new trace at all ("unmapped")
+    /// not iterated ("unvisited"); the state of their stream value has not been reached by this run
+    /// yet ("unreplayed"); that state was consumed but no position mapping leads to it ("lost mapping")
     FoldUnclaimedLoreByCause {
         fold_id: u32,
         unvisited_entries: usize,
         unvisited_states: u64,
-        unmapped_entries: usize,
-        unmapped_states: u64,
+        unreplayed_entries: usize,
+        unreplayed_states: u64,
+        lost_mapping_entries: usize,
+        lost_mapping_states: u64,
+    },
+    /// a call failed while resolving its arguments (a catchable error raised before the trace is
+    /// looked at) although the previous and/or the current data hold a `sent_by` state recorded for it
+    FailedCallLeavesSentState {
+        prev: bool,
+        current: bool,
     },
 }
 
